@@ -712,8 +712,9 @@ class BlockDownloadStream(io.RawIOBase):
         """
         if self._done:
             raise RuntimeError("All expected data has already been transmitted")
-        # Can send up to 7 bytes at a time
-        data = b[0:7]
+        # Can send up to 7 bytes at a time. Copy them, the caller may reuse its
+        # buffer after this call and the data is kept for retransmission.
+        data = bytes(b[0:7])
         if self.size is not None and self.pos + len(data) >= self.size:
             # This is the last data to be transmitted based on expected size
             self.send(data, end=True)
